@@ -1,6 +1,10 @@
 (* The Q instance of the model, as the functions the runner calls. *)
 From Coq Require Import List ZArith QArith Bool.
 From SplipyModel Require Import Model.Num Model.BasisDef Model.BasisEval Model.Knots Model.Tensor Model.Obj Model.Deriv Model.KnotInsert Model.Reparam Model.Affine Model.Tol Model.StateCtx Model.Solve Model.Order Model.Split Model.Periodic Model.WF Model.Ops Model.Identical Model.Append Model.Factory Model.Interp Model.Section Model.Measure Model.Orient Model.Numbering Model.G2 Model.EvalForms Model.Stl Model.Spl Model.Faces Model.Catalogue Model.ConstPar Model.DefaultObj Model.Loft Model.InterpMore Model.Faces2 Gen.CircleNets Gen.DiscSquare.
+From SplipyModel Require Model.OFoam.
+From SplipyModel Require Import Model.SplitSnap.
+From SplipyModel Require Import Model.Handed.
+From SplipyModel Require Import Model.EdgeLoop.
 Import ListNotations.
 
 Definition q_basis_evaluate := @basis_evaluate Q NumQ.
@@ -42,7 +46,7 @@ Definition q_basis_lower_order := @basis_lower_order Q NumQ.
 Definition q_obj_raise_order := @obj_raise_order Q NumQ.
 Definition q_obj_lower_order := @obj_lower_order Q NumQ.
 Definition q_solve := @solve Q NumQ.
-Definition q_obj_split (tol : Q) (o : obj Q) (d : nat) (ks : list Q) := @obj_split Q NumQ (S (length ks)) tol o d ks.
+Definition q_obj_split (tol : Q) (o : obj Q) (d : nat) (ks : list Q) := @obj_split_snapped Q NumQ (S (length ks)) tol o d ks.
 Definition q_obj_make_periodic := @obj_make_periodic Q NumQ.
 Definition q_obj_lower_periodic (o : obj Q) (t d : nat) := @obj_lower_periodic Q NumQ 64 o t d.
 Definition q_wf_obj_b := @wf_obj_b Q NumQ.
@@ -99,4 +103,15 @@ Definition q_volume_lsq := @volume_lsq Q NumQ.
 Definition q_cubic_periodic := @cubic_periodic Q NumQ.
 Definition x_model_faces := model_faces.
 Definition x_conform := conform.
+Definition x_ofoam_order := SplipyModel.Model.OFoam.ofoam_order.
+Definition x_ofoam_blocks := SplipyModel.Model.OFoam.boundary_blocks.
+Definition x_ofoam_declared := SplipyModel.Model.OFoam.declared_blocks.
+Definition x_ofoam_ninternal := SplipyModel.Model.OFoam.n_internal.
+Definition q_edge_loop (rtol atol : Q) (cs : list (list Q * list Q)) : res (list (nat * bool)) :=
+  let curves := map (fun ic => mkEC (fst (snd ic)) (snd (snd ic)) (fst ic, false)) (combine (seq 0 (length cs)) cs) in
+  match @loop_order2 Q NumQ (nat * bool) rtol atol (fun p => (fst p, negb (snd p))) curves with
+  | Ok l => Ok (map (fun c => e_data c) l)
+  | Err e => Err e
+  end.
+Definition q_obj_right_hand := @obj_right_hand Q NumQ.
 Definition q_res_witness (e : err) : res unit := Err e.
